@@ -61,8 +61,13 @@ pub fn run(args: &Args, r: &mut Report) {
         }
         // the device may stay down for a while before it is restarted
         if rng.chance(1, 3) {
-            case.restart_gap_ns = *rng.pick(&[60i128, 3_600, 7_200, 86_400, 200_000]) * 1_000_000_000;
+            case.restart_gap_ns = *rng.pick(&[60i128, 3_600, 7_200, 86_400, 200_000, -3_600, -100_000]) * 1_000_000_000;
             case.shape.push("downtime".into());
+        }
+        // an embedder task that takes the shared locks now and then (the machine has to wait, never to skip)
+        if rng.chance(1, 6) {
+            case.embedder_rate = 4;
+            case.shape.push("embedder".into());
         }
         // a metrics sink that refuses every report (the reporter's contract allows an error)
         if rng.chance(1, 8) {
